@@ -8,6 +8,23 @@ TRUST = ("TLC; the reading of MCNP/TRIPOLI-4 semantics written down in DESIGN.md
          "(harness/vt4/shim.py) standing in for TatSu; the .t4 tokenizer and numeric SURF evaluator "
          "(harness/vt4/t4file.py); the concretiser that spells abstract decks as MCNP text")
 CHECKS = {
+ 'C01': dict(cat='model_checking', ref='6/C01',
+   text=("GenBool.tla behaviours (priority partitions over surface cards incl. collections, duplicates, #n and #( )) "
+         "are concretised and converted by the real code; TraceDeck.tla recomputes MCNP's owner of every probe point "
+         "with McnpSem.Locate in exact integer arithmetic and compares with the owners T4Sem derives from the written "
+         "file (ids and provenance included). Sampled behaviours plus a small exhaustive slice; points: 96 per deck."),
+   technique='TLA+ spec (McnpSurf/McnpSem/T4Sem/GenBool/TraceDeck) checked by TLC; generated decks replayed into the converter, outputs trace-validated by TLC'),
+ 'C08': dict(cat='model_checking', ref='6/C08',
+   text=("T4Sem.FileValid (unique definitions, resolvable references, declared counts, no surface on both sides, finite "
+         "numbers, GEOMCOMP/COMPOSITION/BOUNDARY_CONDITION relations, acyclic references) is evaluated by TLC on the "
+         "tokenised output of every generated deck under sampled option combinations."),
+   technique='TLA+ structural-validity predicate (T4Sem.FileDefects) evaluated by TLC on files written by the real converter for TLC-generated decks'),
+ 'C12': dict(cat='model_checking', ref='6/C12',
+   text=("GenImp.tla enumerates importance sources (cell keywords for two particle types in either order, one or two IMP "
+         "data cards with nR/xM/nI shorthand specified by ExpandData, a universe between level-0 cells) and GenBool decks "
+         "vary the position of zero-importance cells; TraceDeck.tla checks NOTE list = zero-importance level-0 cells, no "
+         "VOLU or provenance for them, and ownership of every probe point of the other cells."),
+   technique='TLA+ spec of importance assignment (GenImp.ExpandData, TraceDeck zeroimp/owner clauses) checked by TLC against recorded conversions'),
  'C11': dict(cat='model_checking', ref='6/C11',
    text=("TLC enumerates every expression tree up to a size bound (and samples beyond it), checks the reference "
          "reader and De Morgan elimination of Expr.tla on each, and validates the trees recorded from the repo's "
